@@ -11,6 +11,7 @@ COMMON_TRUSTED = [
 
 # (file under coq/Gen, acra-vh arguments that print it): regenerated from /repo on every run
 GENERATORS = [
+    ("X18Consts.v", ["x18consts"]),
     ("WireMysqlConsts.v", ["wiremyconsts"]),
     ("CensorKinds.v", ["censorkinds"]),
     ("CensorPatterns.v", ["censorpatterns"]),
@@ -319,6 +320,10 @@ PROPS = {
         ]
     },
     "C18": {
+        "properties": [
+            "C18",
+            "C18_v2import"
+        ],
         "domains": [
             {
                 "name": "c18",
@@ -326,16 +331,33 @@ PROPS = {
                 "n_quick": 48,
                 "n_thorough": 300,
                 "model": True
+            },
+            {
+                "name": "c18v2",
+                "run_vo": "Model/RunKeyRingV2Ext.vo",
+                "n_quick": 12,
+                "n_thorough": 120,
+                "model": True
+            },
+            {
+                "name": "c18mig",
+                "run_vo": "Model/RunKeyRingV2Ext.vo",
+                "n_quick": 24,
+                "n_thorough": 300,
+                "model": True
             }
         ],
         "trusted": [
-            "gob (v1) and DER (v2) serialisations are abstract in the model ([deser (ser l) = Some l] is a premise); the harness decodes the real bytes with Go's gob / acra's asn1 package",
-            "v2 importKeyRing/copyKey re-encryption and the v1-to-v2 migration are exercised by the harness oracle only"
+            "gob (v1) serialisation is abstract in the model ([deser (ser l) = Some l] is a premise); the harness decodes the real bytes with Go's gob",
+            "Properties/C18_v2import.v (21 theorems): keystore v2 export/import at key granularity (Model/KeyRingV2Ext.v: exportKeyRings, importKeyRing, copyKey, addKeyData, getters, ring histories), the DER layout of asn1.EncryptedKeys (Model/DerV2Ext.v, parse-after-serialize identity; the serializer is replayed byte-exact against the real bundle plaintext, the parser only on honest bytes: the strictness of encoding/asn1 on other inputs stays trusted, as does the DER of the outer SignedContainer which the harness decodes with acra's asn1 package) and `acra-keys migrate` (Model/MigrateV2Ext.v) are CHECKED models replayed by the domains c18v2 / c18mig; a back end is modelled as a map from ring path to ring (the signed ring file: C07 / Model/Notary.v); UTCTime values are carried as their 13 characters (time zone UTC); the identity theorem is stated for keys with one format (all that acra's ServerKeyStore creates), keys with two formats are covered by replay and the oracle only",
+            "c18mig runs keystore v1 in a fresh temporary directory of the real file system (MigrateV1toV2 reads key files with os.Open) with well-formed client ids only; history file names, clock values and the nonce of the migration are normalised so that the cases depend on the seed alone"
         ],
         "assumptions": [
             "Correct C; serialised key list and each key shorter than 2^32-1024 bytes and non-empty; nonces of 12 bytes",
             "rejection theorems are reductions to an AEAD / MAC forgery witness",
-            "known finding v2-export-all-omits-private"
+            "known finding v2-export-all-omits-private",
+            "known finding v1-migrate-rotated-keys-not-carried (C18_migrate_rotated_keys_refuted)",
+            "C18_v2import: Correct C; nonces of 12 bytes; key fields shorter than 2^32-1024 bytes (DER: every length below 2^32, integers within int64); import identity is conditional on ImportKeyRings returning success (success itself is shown by the concrete Examples and the replay)"
         ]
     },
     "C07": {
